@@ -741,6 +741,30 @@ pub fn sweep_v3(thorough: bool) -> Vec<v3::Packet> {
             out.push(Packet::Subscribe(Subscribe { pid: Pid::try_from(3).unwrap(), topics: vec![(TopicFilter::try_from("f".repeat(l)).unwrap(), QoS::Level0)] }));
         }
     }
+    // CONNECT on a GRID of specification-significant lengths in all its fields at once (MQTT 3.1 limits:
+    // client id 23, user name / password 12): three- and four-field coincidences
+    for cl in [0usize, 1, 22, 23, 24] {
+        for ul in [None, Some(0usize), Some(11), Some(12), Some(13)] {
+            for pl in [None, Some(0usize), Some(11), Some(12), Some(13)] {
+                for will in [false, true] {
+                    if pl.is_some() && ul.is_none() {
+                        continue; // (a password without a user name is outside the valid domain of v3)
+                    }
+                    for protocol in [Protocol::V310, Protocol::V311] {
+                        out.push(Packet::Connect(Connect {
+                            protocol,
+                            clean_session: true,
+                            keep_alive: 30,
+                            client_id: Arc::new("i".repeat(cl)),
+                            last_will: if will { Some(LastWill { qos: QoS::Level0, retain: true, topic_name: name(4), message: Bytes::from(vec![7u8; 12]) }) } else { None },
+                            username: ul.map(|n| Arc::new("u".repeat(n))),
+                            password: pl.map(|n| Bytes::from(vec![b'p'; n])),
+                        }));
+                    }
+                }
+            }
+        }
+    }
     for t in aligned_texts(thorough) {
         out.push(Packet::Publish(Publish { dup: false, retain: true, qos_pid: QosPid::Level0, topic_name: TopicName::try_from(t.clone()).unwrap(), payload: Bytes::from(t.clone().into_bytes()) }));
         out.push(Packet::Connect(Connect { protocol: Protocol::V310, clean_session: false, keep_alive: 1, client_id: Arc::new(t.clone()), last_will: None, username: Some(Arc::new(t)), password: None }));
